@@ -466,7 +466,7 @@ class Renderer:
         L.append(Line(head, i.get("doc"), self.docsty(i.get("doc"))))
         for b in i.get("bodies", []):
             L += self.procedure(b, in_interface=True)
-            if form != "generic":
+            if form != "generic" or b.get("access"):
                 self._access_of(b, b["name"], early, late)
         if i.get("modprocs"):
             mp = self.kw("module procedure") if self.flag("modproc-module", 3, 4) or form != "generic" else self.kw("procedure")
